@@ -1,0 +1,7 @@
+//go:build !verif
+
+package helpers
+
+// verifTrace marks a transition of the verification models (see verif_trace.go, build tag
+// `verif`).  Without the tag it does nothing and is inlined away.
+func verifTrace(ev string, s string, a, b uint64) {}
